@@ -28,7 +28,7 @@ type celRule struct {
 	truth func(obj map[string]any) bool // ground truth by construction
 }
 
-var kinds = [][2]string{{"apps/v1", "Deployment"}, {"v1", "ConfigMap"}, {"example.com/v1", "Widget"}, {"apps.example/v1", "Deployment"}}
+var kinds = [][2]string{{"apps/v1", "Deployment"}, {"v1", "ConfigMap"}, {"example.com/v1", "Widget"}, {"apps.example/v1", "Deployment"}, {"legacy.example/v1", "ConfigMap"}}
 
 func pick[T any](r *rand.Rand, xs ...T) T { return xs[r.Intn(len(xs))] }
 
